@@ -157,7 +157,8 @@ def _producer_case(draw, ctx):
         spec = draw(S.circuit_spec(min_inputs=1, max_inputs=3, min_gates=1, max_gates=6, max_fanin=3, max_insts=2))
     elif p == "strip_blackboxes":
         pools = (S.BENIGN,) if draw(st.booleans()) else (S.BENIGN[:8], ["u0_q", "u0_d", "u1_q", "u0_clk", "u0_Y", "u0_A", "u1_d"])
-        spec = draw(S.circuit_spec(min_inputs=1, max_inputs=3, min_gates=1, max_gates=7, max_fanin=3, max_insts=2, pools=pools))
+        spec = draw(S.circuit_spec(min_inputs=1, max_inputs=3, min_gates=1, max_gates=7, max_fanin=3, max_insts=2, pools=pools,
+                                   unconnected_pins=draw(st.sampled_from([False, "outputs"]))))
     elif p == "acyclic_unroll_cyc":
         spec = draw(S.circuit_spec(min_inputs=1, max_inputs=3, min_gates=2, max_gates=7, max_fanin=3, cyclic=True))
     elif p in ("limit_fanin", "limit_fanout", "verilog_rt", "verilog_fast_rt"):
@@ -167,7 +168,7 @@ def _producer_case(draw, ctx):
     elif p in ("add_subcircuit", "fill_blackbox"):
         # children may themselves contain blackbox instances (nesting)
         spec = draw(S.circuit_spec(min_inputs=1, max_inputs=4, min_gates=1, max_gates=8, max_fanin=4,
-                                   max_insts=draw(st.sampled_from([0, 1, 2]))))
+                                   max_insts=draw(st.sampled_from([0, 1, 2])), io_outputs=draw(st.booleans())))
     else:
         spec = draw(S.circuit_spec(min_inputs=1, max_inputs=4, min_gates=1, max_gates=8, max_fanin=4,
                                    single_output=(p == "supergates")))
@@ -318,7 +319,27 @@ def _check_producer(case, ctx):
         _lint_both(other, "untouched circuit after the other one was edited")
         res = tgt
     elif p == "strip_blackboxes":
-        out = lib(cg.tx.strip_blackboxes, c)
+        # optionally ignore one pin name (given as str or as list, both documented): an input pin, or an
+        # output pin that no instance has connected -- then nothing is left undriven and the result must be lint-clean
+        g_ = c.graph
+        cands = set()
+        for inst_, bb_ in c.blackboxes.items():
+            cands |= set(bb_.inputs())
+        for pin_ in sorted({p_ for bb_ in c.blackboxes.values() for p_ in bb_.outputs()}):
+            if all(pin_ not in bb_.outputs() or not g_.succ[f"{i_}.{pin_}"] for i_, bb_ in c.blackboxes.items()):
+                cands.add(pin_)
+        cands = sorted(cands)
+        allpins = {p_ for bb_ in c.blackboxes.values() for p_ in (bb_.inputs() | bb_.outputs())}
+        # prefer a pin whose name contains the name of another pin (sd / d, nq / q, gclk / clk)
+        nested = [x for x in cands if any(y != x and y in x for y in allpins)]
+        if nested:
+            cands = nested
+        pick = case.get("pick", 0)
+        if cands and pick % 3:
+            ign = cands[pick % len(cands)]
+            out = lib(cg.tx.strip_blackboxes, c, ign if pick % 2 else [ign])
+        else:
+            out = lib(cg.tx.strip_blackboxes, c)
         if not out.ok and out.type == "ValueError":
             # documented refusal when a pin name would collide with an existing net
             return {"nontrivial": False, "labels": ["producer_strip_refused"]}
@@ -358,13 +379,15 @@ def _check_producer(case, ctx):
         parent = cg.Circuit(name="parent")
         ins = sorted(c.inputs())
         outs = sorted(c.outputs())
-        if set(ins) & set(outs):
+        if set(ins) & set(outs) and p == "fill_blackbox":
             return {"nontrivial": False, "labels": ["producer_skipped"]}
         conns = {}
         for i, n in enumerate(ins):
             parent.add(f"pi{i}", "input")
             conns[n] = f"pi{i}"
         for i, n in enumerate(outs):
+            if n in conns:
+                continue  # a feed-through port (input that is also an output) is attached on its input side
             parent.add(f"po{i}", "buf", output=True)
             conns[n] = f"po{i}"
         if p == "add_subcircuit":
